@@ -76,6 +76,7 @@ def run_case(cfg):
     sig = "|".join(str(x) for x in (mem.get("family", mem.get("cls")), cfg["workload"]["class"],
                                     cfg["cs"].get("cmd_buffer_buffered"), cfg["cs"].get("with_auto_precharge"),
                                     cfg["nports"], hash(tuple(st["bigrams"])) & 0xFFFFFF))
+    st["history_sample"] = (W_ if "W_" in dir() else W).trace_sample(tr)
     return dict(verdict="violated" if v else "held", violations=v[:12], stats=st, nontrivial=nontrivial, signature=sig)
 
 
